@@ -207,7 +207,15 @@ def _case(seed: int) -> Dict[str, Any]:
     fails = []
     n = 0
     with rt.trace_dir(per_rank, gz=bool(seed % 2)) as d:
-        t = rt.load_trace(d, load=False, use_multiprocessing=False)
+        if seed % 6 == 3:
+            # the parser option that hoists EVERY argument of the events into columns (ParserConfig.parse_all_args): the links are the same
+            from hta.common.trace import Trace
+            from hta.configs.parser_config import ParserConfig
+
+            t = Trace(trace_dir=d, parser_config=ParserConfig.get_default_cfg().set_parse_all_args(True))
+            t.parse_traces(use_multiprocessing=False)
+        else:
+            t = rt.load_trace(d, load=False, use_multiprocessing=False)
         for rk, evs in per_rank.items():
             df = t.get_trace(rk)
             exp = oracle_links(evs)
